@@ -113,7 +113,7 @@ var (
 
 	arrayElemTypes = map[int]int{
 		1000: OidBool, 1001: OidBytea, 1002: OidChar, 1003: OidName,
-		1005: OidInt2, 1006: OidInt2, 1007: OidInt4, 1008: OidOid,
+		1005: OidInt2, 1006: 22 /* int2vector */, 1007: OidInt4, 1008: OidOid,
 		1009: OidText, 1010: OidTid, 1011: OidXid, 1012: OidCid,
 		1014: OidBpchar, 1015: OidVarchar, 1016: OidInt8,
 		1017: OidPoint, 1018: OidLseg, 1019: OidPath, 1020: OidBox,
